@@ -4,7 +4,29 @@ status is "known" and either the specification itself classified the violation w
 (the classification is part of the TLA+ invariant, e.g. TraceNet!InvC17) or the named matcher recognises
 the specific failing record."""
 
-MATCHERS = {}
+def _non_utf8_after_rkyv(rec, recs):
+    """C01 known finding: a corrupted relative pointer inside the rkyv-encoded inner data makes a shared `str`
+    (a CID / argument hash) alias bytes that were validated under another length; the resulting non-UTF-8 string
+    panics in serde_json at its first serialization (CID store verification, pretty-printing)."""
+    if rec.get("case", {}).get("family") != "bytes":
+        return False
+    o = rec.get("obs", {})
+    msgs = [o.get("exec_died", ""), o.get("pretty_msg", "")]
+    bad = [m for m in msgs if m]
+    if not bad:
+        return False
+    return all("is not a char boundary" in m or "is out of bounds of" in m for m in bad)
+
+
+def _deep_nesting_stack_overflow(rec, recs):
+    """C01 known finding: a balanced script nested ~100 000 levels deep (1.3 MB of text) overflows the native stack
+    (recursive validator / drop / execution over the boxed AST) and aborts the process."""
+    c = rec.get("case", {})
+    o = rec.get("obs", {})
+    return c.get("family") == "text" and c.get("op") == "verydeep" and "process died" in o.get("exec_died", "")
+
+
+MATCHERS = {"non_utf8_after_rkyv": _non_utf8_after_rkyv, "deep_nesting_stack_overflow": _deep_nesting_stack_overflow}
 
 
 def match(kf, pid, tag, rec, recs):
